@@ -1535,26 +1535,53 @@ func tbIfVerThreshold(p *packages.Package, fd *ast.FuncDecl, legacy *types.Func)
 // tbParserSeps extracts, from the legacy tokenizer, the separator given to strings.Split and the one given to strings.Index.
 func tbParserSeps(p *packages.Package, fd *ast.FuncDecl) (splitSeps, indexSeps map[string]bool) {
 	splitSeps, indexSeps = map[string]bool{}, map[string]bool{}
-	if fd == nil || fd.Body == nil {
+	tbParserSepsIn(p, fd, splitSeps, indexSeps, 0)
+	return
+}
+
+// tbParserSepsIn also reads the package's own helpers that the tokenizer calls (the cut at '=' in a function of its own).
+func tbParserSepsIn(p *packages.Package, fd *ast.FuncDecl, splitSeps, indexSeps map[string]bool, depth int) {
+	if fd == nil || fd.Body == nil || depth > 2 {
 		return
 	}
+	// x, rest, found = strings.Cut(rest, sep): what is left is cut again
+	cutFeedsBack := map[*ast.CallExpr]bool{}
+	ast.Inspect(fd.Body, func(n ast.Node) bool {
+		if as, ok := n.(*ast.AssignStmt); ok && len(as.Lhs) == 3 && len(as.Rhs) == 1 {
+			if call, ok := as.Rhs[0].(*ast.CallExpr); ok && len(call.Args) == 2 {
+				if o := tbObj(p, as.Lhs[1]); o != nil && o == tbObj(p, call.Args[0]) {
+					cutFeedsBack[call] = true
+				}
+			}
+		}
+		return true
+	})
 	ast.Inspect(fd.Body, func(n ast.Node) bool {
 		call, ok := n.(*ast.CallExpr)
-		if !ok || len(call.Args) != 2 {
+		if !ok {
 			return true
 		}
 		f := tbCallee(p, call)
+		if f != nil && f.Pkg() == p.Types {
+			if hd := tbDecl(p, f); hd != nil && hd != fd {
+				tbParserSepsIn(p, hd, splitSeps, indexSeps, depth+1)
+			}
+		}
+		if len(call.Args) != 2 {
+			return true
+		}
 		if s, ok := tbConstString(p, call.Args[1]); ok {
 			switch {
 			case tbIsFunc(f, "strings", "Split"), tbIsFunc(f, "strings", "Fields"):
 				splitSeps[s] = true
+			case tbIsFunc(f, "strings", "Cut") && cutFeedsBack[call]:
+				splitSeps[s] = true // tok, rest, more = strings.Cut(rest, sep) in a loop visits the tokens Split lists
 			case tbIsFunc(f, "strings", "Index"), tbIsFunc(f, "strings", "IndexByte"), tbIsFunc(f, "strings", "Cut"), tbIsFunc(f, "strings", "SplitN"):
 				indexSeps[s] = true
 			}
 		}
 		return true
 	})
-	return
 }
 
 func tbC15Legacy(c *Ctx, p *packages.Package, attrs *types.Named) {
